@@ -174,6 +174,8 @@ def pp(e, depth=0):
         return e['n']
     if k == 'mem':
         b = e['b']
+        while is_expr(b) and b['k'] == 'cast' and b.get('ck') == 'implicit':
+            b = b['e']
         if is_expr(b) and b['k'] == 'this':
             return e['f']
         return pp(b, d) + ('->' if e.get('arrow') else '.') + e['f']
@@ -198,10 +200,14 @@ def pp(e, depth=0):
         if e.get('pm'):
             return '(%s.*%s)(%s)' % (pp(e['pm']['obj'], d), pp(e['pm']['ptr'], d), args)
         name = e.get('m') or e.get('name') or '?'
+        if e.get('op') == '[]' and is_expr(e.get('obj')) and len(e.get('args', [])) == 1:
+            return '%s[%s]' % (pp(e['obj'], d), args)
         if e.get('op'):
             name = 'operator' + e['op']
         if is_expr(e.get('obj')):
             o = e['obj']
+            while is_expr(o) and o['k'] == 'cast' and o.get('ck') == 'implicit':
+                o = o['e']
             if o['k'] == 'this':
                 return '%s(%s)' % (name, args)
             return '%s.%s(%s)' % (pp(o, d), name, args)
@@ -210,7 +216,7 @@ def pp(e, depth=0):
         return '%s{%s}' % (short_type(e.get('ty', '?')), ', '.join(pp(a, d) for a in e.get('args', [])))
     if k == 'cast':
         if e.get('ck') == 'implicit':
-            return '<%s>%s' % (e.get('kind'), pp(e['e'], d))
+            return pp(e['e'], d)
         return '%s_cast<%s>(%s)' % (e.get('ck'), short_type(e.get('ty', '?')), pp(e['e'], d))
     if k == 'tmp':
         return pp(e['e'], d)
